@@ -45,7 +45,14 @@ def run_wrapper(data, script, calls, encoding=0, bufsize=4096):
     sock = LoggingSocket(data, script, events)
     results = []
     try:
-        w = SocketWrapper(sock, encoding=encoding, bufsize=bufsize)
+        try:
+            w = SocketWrapper(sock, encoding=encoding, bufsize=bufsize)
+        except BaseException as err:  # pylint: disable=broad-except
+            if isinstance(err, (KeyboardInterrupt, SystemExit, MemoryError, common.Watchdog)):
+                raise
+            # a failed first receive is a failed receive like any other: the constructor does not raise
+            events.append(ev0("exception", op=type(err).__name__))
+            return events, [b"<exception " + type(err).__name__.encode() + b">"]
         for c in calls:
             try:
                 if c[0] == "read":
